@@ -159,20 +159,45 @@ func (s *v4Server) ResetLeases(leases []*dhcpsvc.Lease) (err error) {
 	s.ipIndex = make(map[netip.Addr]*dhcpsvc.Lease, len(leases))
 	s.leases = nil
 
+	// Add the leases that already have a hostname first, so that a hostname
+	// generated for a lease that has none never takes theirs.
+	var unnamed []*dhcpsvc.Lease
 	for _, l := range leases {
-		if !l.IsStatic {
-			l.Hostname = s.validHostnameForClient(l.Hostname, l.IP)
-		}
-		err = s.addLease(l)
-		if err != nil {
-			// TODO(a.garipov): Wrap and bubble up the error.
-			log.Error("dhcpv4: reset: re-adding a lease for %s (%s): %s", l.IP, l.HWAddr, err)
+		if !l.IsStatic && l.Hostname == "" {
+			unnamed = append(unnamed, l)
 
 			continue
 		}
+
+		s.resetLease(l)
+	}
+
+	for _, l := range unnamed {
+		s.resetLease(l)
 	}
 
 	return nil
+}
+
+// resetLease adds l to the lease table being reset.  A dynamic lease is never
+// dropped because of its hostname, it is added without the hostname instead.
+func (s *v4Server) resetLease(l *dhcpsvc.Lease) {
+	if !l.IsStatic {
+		l.Hostname = s.validHostnameForClient(l.Hostname, l.IP)
+	}
+
+	err := s.addLease(l)
+	if errors.Is(err, ErrDupHostname) && !l.IsStatic {
+		log.Info("dhcpv4: reset: hostname %q of %s (%s) is not unique", l.Hostname, l.IP, l.HWAddr)
+
+		l.Hostname = ""
+		err = s.addLease(l)
+	}
+
+	if err != nil {
+		// TODO(a.garipov): Wrap and bubble up the error.
+		log.Error("dhcpv4: reset: re-adding a lease for %s (%s): %s", l.IP, l.HWAddr, err)
+	}
 }
 
 // getLeasesRef returns the actual leases slice.  For internal use only.
